@@ -71,7 +71,8 @@ def parseTy (j : Json) : Except String TyInfo := do
     | .ok v => parseLookup v
     | .error _ => pure .none
   pure { kind := parseKind (← getStr j "kind"), str := ← getStr j "str", qstr := ← getStr j "qstr", name := ← getStr j "name",
-         pkgPath := ← getOptStr j "pkgPath", pkgName := ← getStr j "pkgName", elem := ← getNat j "elem",
+         pkgPath := ← getOptStr j "pkgPath", pkgName := ← getStr j "pkgName",
+         inScope := (match j.getObjVal? "inScope" with | .ok (.bool b) => b | _ => false), elem := ← getNat j "elem",
          isStruct := ← getBool j "isStruct", isInvalid := ← getBool j "isInvalid", isSlice := ← getBool j "isSlice",
          underStr := ← getStr j "underStr", fields := fields, methods := methods, stringLookup := sl }
 
@@ -131,7 +132,8 @@ def parseFacts (j : Json) : Except String Facts := do
   let scopeNames ← (← getArr j "scopeNames").toList.mapM fun v => match v with
     | .str s => pure s | _ => throw "scopeNames: expected strings"
   let imports ← (← getArr j "imports").toList.mapM fun i => do
-    pure ({ path := ← getStr i "path", alias := ← getStr i "alias" } : ImportSpec)
+    pure ({ path := ← getStr i "path", alias := ← getStr i "alias",
+            pkgName := match i.getObjVal? "pkgName" with | .ok (.str n) => n | _ => "" } : ImportSpec)
   let localFuncs ← (← getArr j "localFuncs").toList.mapM fun l => do
     pure (← getStr l "name", ← parseFuncLookup (← (l.getObjVal? "res")))
   let pkgImports ← (← getArr j "pkgImports").toList.mapM fun v => match v with
@@ -146,9 +148,8 @@ def parseFacts (j : Json) : Except String Facts := do
     convertible := fun a b => (convertible.getD a #[]).getD b false
     identical := fun a b => (identical.getD a #[]).getD b false
     lookup := fun t n => ((lookups.find? (fun e => e.1 == (t, n))).map (·.2)).getD .none
-    scopeHas := fun n => scopeNames.contains n
     pkgPath := ← getStr j "pkgPath"
-    imports := newImportNames imports
+    imports := importNamesOf imports
     stringTy := ← getNat j "stringTy" }
   let scope : Scope := {
     localLookup := fun n => ((localFuncs.find? (·.1 == n)).map (·.2)).getD .notFound
